@@ -18,6 +18,13 @@ import (
 const (
 	flushCommandBatch  = 8
 	flushBufferedBytes = 2048
+
+	// maxArrayPrealloc bounds the slots reserved up front for a RESP array. The declared
+	// element count comes from the client and must not size an allocation by itself.
+	maxArrayPrealloc = 1024
+	// bulkReadChunk is the first buffer size used for a bulk string; the buffer only
+	// grows (by doubling) after the previous one has been filled from the connection.
+	bulkReadChunk = 64 << 10
 )
 
 var (
@@ -436,7 +443,7 @@ func parseRESP(r *bufio.Reader) ([][]byte, error) {
 		if n < 0 {
 			return nil, nil
 		}
-		out := make([][]byte, 0, n)
+		out := make([][]byte, 0, min(n, maxArrayPrealloc))
 		for range n {
 			b, err := r.ReadByte()
 			if err != nil {
@@ -457,8 +464,8 @@ func parseRESP(r *bufio.Reader) ([][]byte, error) {
 				out = append(out, nil)
 				continue
 			}
-			buf := make([]byte, l)
-			if _, err := io.ReadFull(r, buf); err != nil {
+			buf, err := readBulk(r, l)
+			if err != nil {
 				return nil, err
 			}
 			if err := expectCRLF(r); err != nil {
@@ -484,6 +491,28 @@ func parseRESP(r *bufio.Reader) ([][]byte, error) {
 			out[i] = []byte(f)
 		}
 		return out, nil
+	}
+}
+
+// readBulk reads exactly l payload bytes. Memory is committed in proportion to the bytes
+// that actually arrived: a declared length alone never sizes an allocation.
+func readBulk(r *bufio.Reader, l int) ([]byte, error) {
+	buf := make([]byte, min(l, bulkReadChunk))
+	filled := 0
+	for {
+		if _, err := io.ReadFull(r, buf[filled:]); err != nil {
+			if err == io.EOF && filled > 0 {
+				err = io.ErrUnexpectedEOF
+			}
+			return nil, err
+		}
+		filled = len(buf)
+		if filled == l {
+			return buf, nil
+		}
+		grown := make([]byte, min(l, 2*filled))
+		copy(grown, buf)
+		buf = grown
 	}
 }
 
